@@ -38,10 +38,8 @@ def precedence_level(node: mparser.BaseNode) -> int:
     elif isinstance(node, (mparser.BooleanNode, mparser.IdNode, mparser.NumberNode, mparser.StringNode, mparser.EmptyNode)):
         return 10
     elif isinstance(node, mparser.ParenthesizedNode):
-        # Parenthesize have the highest binding power, but since the AstPrinter
-        # ignores ParanthesizedNode, the binding power of the inner node is
-        # relevant.
-        return precedence_level(node.inner)
+        # Parentheses have the highest binding power
+        return 10
     raise MesonBugException('Unhandled node type')
 
 class AstPrinter(AstVisitor):
@@ -157,6 +155,12 @@ class AstPrinter(AstVisitor):
         self.append_padded(node.operator.value, node)
         node.lineno = self.curr_line or node.lineno
         self.maybe_parentheses(node, node.right, prec > prec_right or (prec == prec_right and node.operation in {'-', '/', '%'}))
+
+    def visit_ParenthesizedNode(self, node: mparser.ParenthesizedNode) -> None:
+        node.lineno = self.curr_line or node.lineno
+        self.append('(', node)
+        node.inner.accept(self)
+        self.append(')', node)
 
     def visit_NotNode(self, node: mparser.NotNode) -> None:
         node.lineno = self.curr_line or node.lineno
